@@ -85,6 +85,29 @@ pub fn c01(ctx: &mut Ctx) {
     }
     maxb.extend(rec(11, &pat(37, 1)));
     large.push(("ctl-65535".into(), control_wire(W_CONTROL, 65535, [1, 2, 3, 4], &maxb)));
+    // data messages whose offset size is close to the 16-bit maximum, with that many pad octets really present
+    // flag word in the crate's numbering: T = 0x0100, L = 0x0200, S = 0x1000, O = 0x4000, version nibble 0x0020
+    for (wname, word) in [("lo", 0x4220u16), ("lso", 0x5220), ("o", 0x4020), ("so", 0x5020)] {
+        for off in [65500u16, 65522, 65526, 65530, 65535] {
+            for length in [100u16, 65535] {
+                let mut b = word.to_be_bytes().to_vec();
+                if word & 0x0200 != 0 {
+                    b.extend(length.to_be_bytes());
+                }
+                b.extend([0, 1, 0, 2]);
+                if word & 0x1000 != 0 {
+                    b.extend([0, 3, 0, 4]);
+                }
+                b.extend(off.to_be_bytes());
+                b.extend(std::iter::repeat(0u8).take(off as usize));
+                b.extend(pat(200, 7));
+                large.push((format!("data-{wname}-off{off}-len{length}"), b));
+                if word & 0x0200 == 0 {
+                    break;
+                }
+            }
+        }
+    }
     for (name, b) in &large {
         for e in entries_few() {
             ctx.case(&format!("{name}/{}", entry_text(&e)), &|| format!("decode-message {} {}", hexz(b), entry_text(&e)), || check_msg(b, &e));
@@ -273,6 +296,19 @@ pub fn round_trip_datas() -> Vec<(String, DataV)> {
                 let mut v = vec![0x5au8; n];
                 v.extend(vec![0xabu8; dlen - n - 1]);
                 v.push(0xcd);
+                v
+            } },
+        ));
+    }
+    // no Length field: the total size is not bounded by 16 bits (sizes around and beyond 65 536 octets)
+    for (dlen, off, s) in [(65529usize, None, false), (65530, None, false), (65531, None, false), (65630, None, false), (65576, None, true),
+                           (69992, Some(3usize), false), (65524, Some(65523), true), (131080, None, true), (200000, Some(60000), false)] {
+        out.push((
+            format!("d{dlen}-nolen-big"),
+            DataV { prio: false, length: None, tunnel: 0x0102, session: 0x0304, ns_nr: if s { Some((5, 6)) } else { None }, offset: off.map(|n| n as i64), data: {
+                let n = off.unwrap_or(0);
+                let mut v = vec![0x5au8; n];
+                v.extend((0..dlen - n).map(|i| (i % 251) as u8));
                 v
             } },
         ));
@@ -530,9 +566,12 @@ pub fn c08(ctx: &mut Ctx) {
     corpus.extend(control_single_avp_corpus().into_iter().step_by(5));
     for (name, b) in &corpus {
         for e in [Some(NONE), Some(STRICT)] {
-            if declared_extent(b, &e).is_none() {
-                continue;
-            }
+            let Some(extent) = declared_extent(b, &e) else { continue };
+            ctx.case(&format!("extent-{name}/{}", entry_text(&e)), &|| format!("decode-message {} {}", hexz(b), entry_text(&e)), || {
+                let (r0, rem0) = dec_msg(b, &e);
+                ensure!(r0.is_err() || rem0 == b.len() - extent, format!("exactly the declared {extent} octets consumed, {} left", b.len() - extent), format!("{} left after {}", rem0, show(&r0)));
+                Ok(())
+            });
             for (si, s) in suffixes.iter().enumerate() {
                 ctx.case(&format!("suffix{si}-{name}/{}", entry_text(&e)), &|| format!("decode-suffix {} {} {}", hexz(b), hexz(s), entry_text(&e)), || {
                     let (r0, rem0) = dec_msg(b, &e);
@@ -585,25 +624,18 @@ pub fn c08(ctx: &mut Ctx) {
             &|| format!("encode-messages - {}", chosen.iter().map(msg_desc).collect::<Vec<_>>().join(" ")),
             || {
                 let reals: Vec<Message<Vec<u8>>> = chosen.iter().map(|m| rf::build_message(m).expect("representable")).collect();
-                let mut cat = vec![];
-                let mut sizes = vec![];
-                for m in &reals {
-                    let b = enc_msg(m);
-                    sizes.push(b.len());
-                    cat.extend(b);
+                // C08 is relative: packed back to back, each message decodes to what its own encoding decodes to alone
+                // (whether that equals the encoded value is C03 / C04)
+                let encs: Vec<Vec<u8>> = reals.iter().map(enc_msg).collect();
+                let cat: Vec<u8> = encs.iter().flatten().cloned().collect();
+                let alone: Vec<_> = encs.iter().map(|b| dec_msg_o(b, STRICT)).collect();
+                if alone.iter().any(|(r, rem)| r.is_err() || *rem != 0) {
+                    return Ok(()); // an encoding that does not decode (completely) on its own is not delimited: C03 / C04
                 }
                 let mut r = SliceReader::from(&cat);
-                for (k, m) in chosen.iter().enumerate() {
+                for k in 0..chosen.len() {
                     let got = Message::<&[u8]>::try_read_validate(&mut r, STRICT.real());
-                    let want = match m {
-                        MsgV::Control(c) => MsgV::Control(CtlV { length: sizes[k] as i64, ..c.clone() }),
-                        MsgV::Data(d) => {
-                            let n = d.offset.unwrap_or(0) as usize;
-                            MsgV::Data(DataV { offset: None, data: d.data[n..].to_vec(), ..d.clone() })
-                        }
-                    };
-                    let gv = got.as_ref().ok().map(rf::view_message);
-                    ensure!(gv.as_ref() == Some(&want), format!("message {k}: {}", show(&want)), format!("message {k}: {}", show(&got)));
+                    ensure!(got == alone[k].0, format!("message {k} as decoded alone: {}", show(&alone[k].0)), format!("message {k}: {}", show(&got)));
                 }
                 ensure!(r.is_empty(), "reader at the end", format!("{} octets left", r.len()));
                 Ok(())
